@@ -93,11 +93,16 @@ def ref_total(case, vec):
     return sum(ref_terms(case, vec))
 
 
-def build_posterior(case):
-    ns, n_obs = case['n_samples'], case['n_obs']
+def build_filter(case):
     data = c12._arr(case['y'])
     blocks = _blocks(case)
-    f = c12.build_filter(blocks, data, composed=len(blocks) > 1)
+    return c12.build_filter(blocks, data, composed=len(blocks) > 1)
+
+
+def build_posterior(case, f=None):
+    ns, n_obs = case['n_samples'], case['n_obs']
+    if f is None:
+        f = build_filter(case)
     pop = popbuild.build(
         case['spec'], ns if case['spec']['kind'] == 'Red' else None)
     n_pop, n_sig, _ = layout(case)
@@ -140,7 +145,16 @@ def w_post(case):
         case['n_samples'])
     ntr = 0
     try:
-        post = build_posterior(case)
+        if case.get('reuse'):
+            # the caller's filter object is used for two posteriors; the second one
+            # is examined below and must agree with the first
+            f_user = build_filter(case)
+            first = build_posterior(case, f_user)
+            post = build_posterior(case, f_user)
+            ntr += 1
+        else:
+            first = None
+            post = build_posterior(case)
         ntr += 1
     except Exception as e:
         return {'transitions': 1, 'outcome': 'ctor', 'violations': [{
@@ -154,6 +168,14 @@ def w_post(case):
                      'published layout (%s)' % lab, 'expected': n,
                      'observed': post.n_parameters(), 'behaviour': 'count'})
         return {'transitions': ntr, 'outcome': 'count', 'violations': viol}
+    if first is not None:
+        a, b = first(x.copy()), post(x.copy())
+        ntr += 2
+        if not tol.close(a, b):
+            viol.append({'sub': 'reuse', 'message': 'two posteriors built from the '
+                         'same filter object differ (%s, times %s)'
+                         % (lab, case['times']), 'expected': a, 'observed': b,
+                         'behaviour': 'reuse'})
     pts = [x, x * (1 + 0.01 * (1 + np.arange(n) % 5))]
     diffs, gots = [], []
     for p in pts:
@@ -296,6 +318,9 @@ def build(tier, seed):
                         cases.append(make_case(
                             spec, filt, sigma_free, log_scale, ns,
                             [t3[k] for k in perm], 2, seed))
+    # every second case builds two posteriors from one filter object
+    for k, c in enumerate(cases):
+        c['reuse'] = (k % 2 == 1)
     # wrapped models: reduced (every subset of <= 2 fixed parameters) and covariate
     # models around pooled dimensions
     wrapped = []
